@@ -13,6 +13,7 @@ import (
 	"strings"
 	"sync"
 	"sync/atomic"
+	"time"
 
 	"verif/harness/internal/emit"
 	"verif/harness/internal/out"
@@ -33,6 +34,7 @@ type childOut struct {
 	Seqs     [][][]string `json:"reader_sequences"`
 	Reads    []int64      `json:"reads_per_reader"`
 	Dead     bool         `json:"refresh_goroutine_dead"`
+	Blocked  bool         `json:"readers_blocked"`
 }
 
 func makeScenario(seed uint64, k int, thorough bool) scenario {
@@ -117,26 +119,46 @@ func raceChild(cfg out.Config) {
 			}
 		}(i)
 	}
-	// wait (on the readers' counters, not on time) until every reader made `more` further reads
+	// wait (on the readers' counters, not on time) until every reader made `more` further reads.
+	// The 15 s limit is only a watchdog for readers that cannot make progress at all (Hosts()
+	// blocked while the scripted lookup is in flight): it ends the scenario as a failing
+	// observation instead of a child that never exits.
+	blocked := false
 	advance := func(more int64) {
+		if blocked {
+			return
+		}
 		base := make([]int64, sc.Readers)
 		for i := range base {
 			base[i] = atomic.LoadInt64(&counts[i])
 		}
+		deadline := time.Now().Add(15 * time.Second)
 		for i := range base {
-			for atomic.LoadInt64(&counts[i]) < base[i]+more {
+			for n := 0; atomic.LoadInt64(&counts[i]) < base[i]+more; n++ {
 				runtime.Gosched()
+				if n%1024 == 0 && time.Now().After(deadline) {
+					blocked = true
+					return
+				}
 			}
 		}
 	}
 	advance(3)
-	for i := 1; i < len(sc.Sets); i++ {
+	for i := 1; i < len(sc.Sets) && !blocked && !s.dead; i++ {
 		if sc.Fail[i] {
 			s.refresh(lookupRes{toSRV(sc.Sets[(i+1)%len(sc.Sets)]), errLookup})
 			advance(2)
 		}
 		s.refresh(lookupRes{toSRV(sc.Sets[i]), nil})
 		advance(3)
+	}
+	if blocked {
+		// the readers are stuck inside Hosts(): do not wait for them, do not touch what they own
+		res := childOut{Scenario: sc, Seqs: [][][]string{{{blockedMarker}}}, Blocked: true}
+		b, _ := json.Marshal(res)
+		os.Stdout.Write(b)
+		os.Stdout.Write([]byte("\n"))
+		os.Exit(0)
 	}
 	close(stop)
 	wg.Wait()
@@ -185,6 +207,7 @@ func raceParent(g *gen) {
 	if err != nil {
 		panic(err)
 	}
+	stuck := 0
 	for k := 0; k < n; k++ {
 		logp := filepath.Join(cfg.Dir, fmt.Sprintf("race-s%02d", k))
 		gorace := "halt_on_error=0"
@@ -201,7 +224,21 @@ func raceParent(g *gen) {
 		}
 		var stdout, stderr bytes.Buffer
 		cmd.Stdout, cmd.Stderr = &stdout, &stderr
-		runErr := cmd.Run() // exit status 66 = the race detector reported something
+		// exit status 66 = the race detector reported something; a child that does not finish
+		// within 3 minutes is killed (it bounds its own waits, this is the last resort)
+		done := make(chan error, 1)
+		if err := cmd.Start(); err != nil {
+			done <- err
+		} else {
+			go func() { done <- cmd.Wait() }()
+		}
+		var runErr error
+		select {
+		case runErr = <-done:
+		case <-time.After(3 * time.Minute):
+			cmd.Process.Kill()
+			runErr = fmt.Errorf("killed after 3 minutes: %v", <-done)
+		}
 		var co childOut
 		crashed := ""
 		if jerr := json.Unmarshal(bytes.TrimSpace(stdout.Bytes()), &co); jerr != nil {
@@ -228,7 +265,7 @@ func raceParent(g *gen) {
 		term := emit.App("CRace", emit.Str(sc.Scheme), emit.List(sets), emit.List(seqs), emit.Bool(nrace > 0))
 		js := map[string]interface{}{"level": "race", "scenario": sc, "observed": map[string]interface{}{
 			"reader_sequences": co.Seqs, "reads_per_reader": co.Reads, "race_reports_with_lura_frame": nrace, "observed_race": nrace > 0,
-			"first_report": first, "child_crashed": crashed, "refresh_goroutine_dead": co.Dead}}
+			"first_report": first, "child_crashed": crashed, "refresh_goroutine_dead": co.Dead, "readers_blocked": co.Blocked}}
 		g.w.Count("level:race")
 		g.w.Count(fmt.Sprintf("race:readers:%d", sc.Readers))
 		var total int64
@@ -237,6 +274,12 @@ func raceParent(g *gen) {
 		}
 		g.w.Count("race:reads-total:" + sizeBucket(total))
 		g.w.Add(term, js, "", key, true)
+		if co.Blocked || crashed != "" {
+			stuck++
+			if stuck >= 2 {
+				break // every further scenario would sit out the same watchdog
+			}
+		}
 	}
 	g.w.Close("race-detector build: per scenario a child process with 2..6 readers calling Hosts() (and overwriting the returned slices) while the refresh goroutine is fed 3..7 (thorough 7..11) successive answers, some preceded by a failing lookup, every fourth scenario with lists of more than 100 hosts; one case per scenario: observed_race (reports with a lura frame) and, per reader, the sequence of distinct lists it saw", false)
 }
